@@ -5,7 +5,8 @@
 EXTENDS Workspace, TLC, Json
 CONSTANTS Forms, Dirs, Depths
 VARIABLE c
-Init == c \in [form : Forms, dir : Dirs, depth : Depths, renamed : BOOLEAN, dup : BOOLEAN]
+\* dup: a third crate defines a type with the same Rust identifier; dup_renamed: that one carries its own serde(rename)
+Init == c \in { r \in [form : Forms, dir : Dirs, depth : Depths, renamed : BOOLEAN, dup : BOOLEAN, dup_renamed : BOOLEAN] : r.dup_renamed => r.dup }
 Next == UNCHANGED c
 
 DirChars(d) == CASE d = "alpha" -> <<"a","l","p","h","a">>
